@@ -408,3 +408,174 @@ def gen_history(pid, run_seed):
     h = PROPS[pid].generate(rng)
     h["seed"] = run_seed
     return h
+
+
+# ======================================================================================
+# shared: epoch-style mutation histories (C04 / C05 / C13 / C10 ...)
+# ======================================================================================
+class EpochGen:
+    """one or more epochs; in each: owners, views (and views of views), non-view consumers,
+    in-place updates on any member, then a terminal built from kept loss terms, then backward."""
+
+    def __init__(self, g, opts):
+        self.g = g
+        self.o = opts
+
+    def run(self, n_epochs):
+        g = self.g
+        for e in range(n_epochs):
+            self.epoch()
+
+    def epoch(self):
+        g, o = self.g, self.o
+        r = g.r
+        terms = []
+        owners = []
+        for _ in range(r.randint(1, o.get("max_owners", 3))):
+            if g.coin(0.7) or not g.float_tensors():
+                owners.append(g.leaf(shape=g.rand_shape(min_ndim=o.get("min_ndim", 0))))
+            else:
+                h = g.op_binary(allow_arrays=False) or g.op_unary()
+                if h is not None:
+                    owners.append(h)
+        fresh = list(owners)
+        n_ev = r.randint(o.get("min_events", 4), o.get("max_events", 18))
+        w = o["weights"]
+        table = [(k, v) for k, v in w.items() if v > 0]
+        for _ in range(n_ev):
+            k = g.wchoice(table)
+            cur = [h for h in g.tensors() if g.t[h].born == g.epoch] if o.get("only_fresh", True) else g.tensors()
+            if not cur:
+                break
+            src = g.choice(cur)
+            if k == "view":
+                h = g.op_view(src)
+            elif k == "adv":
+                h = g.op_adv_getitem(src)
+            elif k == "read":
+                h = self._read(src)
+                if h is not None:
+                    terms.append(h)
+            elif k == "setitem":
+                fl = [x for x in cur if g.t[x].val.dtype.kind == "f"]
+                if fl:
+                    g.inplace_setitem(g.choice(fl), adv_p=o.get("adv_p", 0.35))
+            elif k == "iop":
+                fl = [x for x in cur if g.t[x].val.dtype.kind == "f"]
+                if fl:
+                    g.inplace_iop(g.choice(fl))
+            elif k == "ufunc":
+                fl = [x for x in cur if g.t[x].val.dtype.kind == "f"]
+                if fl:
+                    g.inplace_ufunc(g.choice(fl))
+            elif k == "setshape":
+                g.setshape(src)
+            elif k == "drop":
+                if len(cur) > 2:
+                    g.drop_t(src, cycle=False)
+                    if src in terms:
+                        terms.remove(src)
+            elif k == "fail":
+                PROPS["C08"]._g_fail(g, {}, 0)
+            elif k == "leaf":
+                g.leaf()
+        # terminal
+        terms = [h for h in terms if h in g.t]
+        if o.get("include_members", True):
+            # every tensor created in this epoch takes part in the terminal, so that the whole
+            # epoch graph is upstream of L and nothing is left half-cleared (that is C09's lane)
+            for h in [h for h in g.float_tensors() if g.t[h].born == g.epoch]:
+                if h not in terms:
+                    terms.append(h)
+        L = self._terminal(terms)
+        if L is None:
+            return
+        how = g.wchoice(o.get("end", [("backward", 8), ("clear", 1)]))
+        if how == "backward":
+            g.backward(L)
+        else:
+            g.clear(L)
+        if g.coin(o.get("drop_after_p", 0.5)):
+            for h in list(g.tensors()):
+                if g.coin(0.6):
+                    g.drop_t(h)
+
+    def _read(self, src):
+        g = self.g
+        k = g.choice(["unary", "binary", "reduce", "misc", "binary"])
+        if g.t[src].val.dtype.kind != "f":
+            return None
+        if k == "unary":
+            return g.op_unary(src)
+        if k == "binary":
+            return g.op_binary(src, allow_arrays=False)
+        if k == "reduce":
+            return g.op_reduce(src)
+        m = g.choice(["matmul", "where", "join", "seq", "cumsum", "power", "einsum", "clip"] if not g.exact else ["matmul", "where", "join", "seq", "cumsum", "power"])
+        return getattr(g, "op_" + m)(src)
+
+    def _terminal(self, terms):
+        """L = sum_i c_i * term_i.sum()"""
+        g = self.g
+        acc = None
+        for h in terms:
+            if h not in g.t or g.t[h].val.dtype.kind != "f":
+                continue
+            s = g._emit_op("sum", [{"t": h}], {"axis": None, "keepdims": False})
+            if s is None:
+                continue
+            c = float(g.r.randint(1, 3)) if g.exact else round(g.r.uniform(0.5, 2.0), 2)
+            m = g._emit_op("mul", [{"t": s}, {"c": c}] if g.coin(0.5) else [{"c": c}, {"t": s}])
+            if m is None:
+                continue
+            if acc is None:
+                acc = m
+            else:
+                a2 = g._emit_op("add", [{"t": acc}, {"t": m}] if g.coin(0.5) else [{"t": m}, {"t": acc}])
+                if a2 is not None:
+                    acc = a2
+        return acc
+
+
+class C04(Prop):
+    id = "C04"
+    title = "views and in-place updates mirror NumPy"
+    rule = (
+        "epoch histories (owners, views, views of views, non-view consumers, in-place updates on any member, .shape assignment) drawn by the "
+        "seeded generator; non-trivial when at least one in-place update or .shape assignment succeeded on a family with >=2 members; "
+        "distinct by the sequence of (event kind, outcome class)"
+    )
+
+    def generate(self, rng):
+        cfg = {
+            "lane": rng.choice(["plain", "plain", "faults", "seams"]),
+            "id_policy": "never",
+            "max_elems": rng.choice([6, 12, 24]),
+            "max_ndim": rng.choice([1, 2, 3]),
+            "dtypes": rng.choice([["f8"], ["f8", "f4"], ["f8", "i8"], ["f8", "f4", "b1", "i4"]]),
+            "tape": False,
+            "exact": rng.random() < 0.5,
+            "const_flags": rng.random() < 0.3,
+        }
+        w = {"view": rng.choice([3, 6]), "adv": 1, "read": rng.choice([1, 3]), "setitem": rng.choice([2, 5]), "iop": rng.choice([1, 3]),
+             "ufunc": rng.choice([1, 3]), "setshape": rng.choice([0, 0, 1, 2]), "drop": rng.choice([0, 1]), "leaf": 0.5, "fail": 0}
+        if cfg["lane"] == "faults":
+            w["fail"] = 2
+            cfg["kernel_fault_p"] = 0.05
+        if cfg["lane"] == "seams":
+            cfg["id_policy"] = rng.choice(["lifo", "random"])
+            cfg["gc_preempt_p"] = 0.15
+        g = Gen(rng, cfg)
+        eg = EpochGen(g, {"weights": w, "max_events": rng.choice([8, 14, 22]), "adv_p": rng.choice([0.2, 0.5])})
+        eg.run(rng.randint(1, 3))
+        add_faults(g, g.ev, rng, cfg)
+        return {"prop": self.id, "cfg": cfg, "events": g.ev}
+
+    def observers(self, hist):
+        return [O.ValueOracle("C04")]
+
+    def nontrivial(self, world):
+        return world.probes.get("c04.inplace_on_family", 0) > 0
+
+
+register(C04())
